@@ -256,6 +256,15 @@ func genThink(rng *rand.Rand, mode int) []time.Duration {
 			out[i] = 10 * time.Second
 		}
 		return out
+	case 3:
+		// a slow front: some answers take longer than any sensible client-side
+		// patience (the property holds "while the server answers 200", however late)
+		menu := []time.Duration{0, 0, time.Second, 25 * time.Second, 45 * time.Second, 2 * time.Minute, 5 * time.Minute}
+		out := make([]time.Duration, 8)
+		for i := range out {
+			out[i] = menu[rng.IntN(len(menu))]
+		}
+		return out
 	}
 	return nil
 }
@@ -626,7 +635,7 @@ func runConn(c *mon.Case, r *mon.Run, p params, sp **server) {
 			} else {
 				sig += "response-bytes-never-delivered"
 			}
-			s.viol(sig, "one virtual hour after the last Write, with every request answered 200 within 10 s: "+how)
+			s.viol(sig, "one virtual hour after the last Write, with every request answered 200 (the slowest answers of the script add up to less than 45 minutes): "+how)
 		case p.healthy():
 			r.Count("settled_connections_judged_equal", 1)
 		case diedAlone:
@@ -923,7 +932,7 @@ func TestCheck(t *testing.T) {
 	defer r.Finish()
 	r.SpinWatch(memwire.BytesMoved)
 	r.Note("rule", "four families of meek_lite connections, each in its own synctest bubble against a scripted in-memory HTTP/1.1 server: "+
-		"stream = grid of 5 write-script kinds (tiny 1-100 B x 1-40 writes; size menu 1..65537; big up to 3x65536+1; bursts of 17-40 back-to-back writes; sums of exactly 65536) x 6 response patterns (empty, 1 B x K, 65536 x K, alternating, PRNG sizes, 2-64 B x K) with gaps from {0,1ms,99ms,101ms,6s}, think times 0-10 s, chunked/split responses, Connection: close redials, reader chunk policies, slow readers, with/without front; "+
+		"stream = grid of 5 write-script kinds (tiny 1-100 B x 1-40 writes; size menu 1..65537; big up to 3x65536+1; bursts of 17-40 back-to-back writes; sums of exactly 65536) x 6 response patterns (empty, 1 B x K, 65536 x K, alternating, PRNG sizes, 2-64 B x K) with gaps from {0,1ms,99ms,101ms,6s}, think times 0-10 s and, in a quarter of the connections of the stream family, a slow front (answers after 25 s, 45 s, 2 min, 5 min), chunked/split responses, Connection: close redials, reader chunk policies, slow readers, with/without front; "+
 		"close = 12-write script x Close at each of the 13 points x 5 ways (writer itself, third goroutine at the same virtual instant, server on request headers, server while thinking, server between two pieces of the response); "+
 		"non200 = 1/2/9/10/12 consecutive answers 500/404/403/503; fault = TCP abort in the response body / no response / silent close. "+
 		"Every connection ends with Close and the after-Close observations. Random dimensions come from the per-connection sub-seed. Non-trivial = at least one request reached the server; distinct = distinct (family, sub-seed).")
@@ -964,6 +973,10 @@ func TestCheck(t *testing.T) {
 						rng := mon.NewRand(seed)
 						p := params{family: "stream", seed: seed, writes: genWrites(rng, wk), resp: genResp(rng, rp)}
 						common(rng, &p)
+						if k%4 == 3 {
+							p.think = genThink(rng, 3) // a slow front (stream family only: the after-Close observations assume prompt answers)
+							r.Count("slow_front_connections", 1)
+						}
 						conn(c, r, p)
 					}
 				})
